@@ -1,5 +1,11 @@
--- driver for C16 (stub)
-def step (_line : String) : String := "bad-op"
+import GrcovModel.Drv.C16
+open Grcov.Drv
+
+def step (line : String) : String :=
+  match line.trimAscii.toString.splitOn " " with
+  | "ffilter" :: args => handleFFilter args
+  | "ffapply" :: args => handleFFApply args
+  | _ => "bad-op"
 
 partial def loop (h : IO.FS.Stream) (out : IO.FS.Stream) : IO Unit := do
   let line ← h.getLine
